@@ -3,21 +3,176 @@ import RlibModel.Lemmas.Gcd
 # C11 — gcd, lcm, linear Diophantine solver and CRT return the number-theoretic answer
 
 Property theorems only; helper lemmas are in `Lemmas/Gcd.lean`, the model in `Model/Gcd.lean`.
+`gcd lcm egcd crt` are the unbounded-integer models of the four Rust functions; `gcdT lcmT egcdT crtT` are the
+same code with every machine operation checked against an integer type (what the driver executes).  The
+`*_nowrap` / `*T_spec` theorems say that inside the property's magnitude box the checked versions never
+report an overflow and agree with the unbounded ones, to which the number-theoretic theorems apply.
 -/
 namespace Rlib.C11
 open Rlib.Gcd
 
 /-- `gcd` is the non-negative greatest common divisor for all operand signs, `gcd 0 0 = 0`
     included (the loop provably terminates: `gcdLoop` is defined by well-founded recursion). -/
-theorem gcd_spec (a b : Int) : gcd a b = (Int.gcd a b : Int) := by
-  have h1 := gcdLoop_natAbs (a.natAbs : Int) (b.natAbs : Int)
-  have h2 := gcdLoop_nonneg (a.natAbs : Int) (b.natAbs : Int) (by omega) (by omega)
-  unfold gcd
-  simp only [Int.natAbs_natCast] at h1
-  rw [Int.gcd]
-  omega
+theorem gcd_spec (a b : Int) : gcd a b = (Int.gcd a b : Int) := gcd_eq a b
 
 example : gcd (-12) 18 = 6 := by rw [gcd_spec]; decide
 example : gcd 0 0 = 0 := by rw [gcd_spec]; decide
+
+/-- `lcm` is the non-negative least common multiple for all operand signs; `lcm 0 0` divides by zero
+    (outside the property's domain, mirrored by the model). -/
+theorem lcm_spec (a b : Int) :
+    lcm a b = if a = 0 ∧ b = 0 then .error .divzero else .ok (Int.lcm a b : Int) := by
+  by_cases h : a = 0 ∧ b = 0
+  · obtain ⟨rfl, rfl⟩ := h
+    rw [lcm_zero]; simp
+  · rw [if_neg h, lcm_eq a b h]
+
+example : lcm (-4) 6 = .ok 12 := by rw [lcm_spec]; decide
+example : lcm 0 7 = .ok 0 := by rw [lcm_spec]; decide
+example : lcm 0 0 = .error .divzero := by rw [lcm_spec]; decide
+
+/-- Machine `gcd`: no overflow as soon as the absolute values of the operands are representable… -/
+theorem gcdT_spec (t : IntTy) (a b : Int)
+    (ha : t.fits (a.natAbs : Int) = true) (hb : t.fits (b.natAbs : Int) = true) :
+    gcdT t a b = .ok (Int.gcd a b : Int) := gcdT_eq t a b ha hb
+
+/-- …which is the case for every representable operand except the minimum of a signed type. -/
+theorem fits_abs_of_ne_min (t : IntTy) (a : Int) (ha : t.fits a = true) (hmin : t.signed = true → a ≠ t.minVal) :
+    t.fits (a.natAbs : Int) = true := fits_natAbs t a ha hmin
+
+/-- Machine `lcm`: no overflow when the operands' absolute values and the result are representable. -/
+theorem lcmT_spec (t : IntTy) (a b : Int)
+    (ha : t.fits (a.natAbs : Int) = true) (hb : t.fits (b.natAbs : Int) = true)
+    (hab : ¬(a = 0 ∧ b = 0)) (hl : t.fits (Int.lcm a b : Int) = true) :
+    lcmT t a b = .ok (Int.lcm a b : Int) := lcmT_eq t a b ha hb hab hl
+
+example : gcdT ⟨true, 8⟩ (-127) 127 = .ok 127 := by rw [gcdT_spec _ _ _ (by decide) (by decide)]; decide
+example : lcmT ⟨false, 8⟩ 15 17 = .ok 255 := by
+  rw [lcmT_spec _ _ _ (by decide) (by decide) (by decide) (by decide)]; decide
+example : (⟨true, 8⟩ : IntTy).fits ((-127 : Int).natAbs : Int) = true :=
+  fits_abs_of_ne_min ⟨true, 8⟩ (-127) (by decide) (fun _ => by decide)
+
+/-- Soundness of the linear solver: a returned pair solves `a·x + b·y = c`. -/
+theorem egcd_sound (a b c x y : Int) (h : egcd a b c = .ok (some (x, y))) : a * x + b * y = c :=
+  egcd_sound' a b c x y h
+
+/-- Completeness: for `(a, b) ≠ (0, 0)` the solver never errors and answers `none` exactly when `gcd(a,b) ∤ c`. -/
+theorem egcd_complete (a b c : Int) (hab : ¬(a = 0 ∧ b = 0)) :
+    ∃ r, egcd a b c = .ok r ∧ (r = none ↔ ¬ (Int.gcd a b : Int) ∣ c) := by
+  rcases egcd_complete' a b c hab with ⟨h, hd⟩ | ⟨x, y, h, hd⟩
+  · exact ⟨none, h, by simp [hd]⟩
+  · exact ⟨some (x, y), h, by simp [hd]⟩
+
+/-- `egcd(0, 0, c)` evaluates `c % 0`: division by zero (outside the property's domain). -/
+theorem egcd_divzero (c : Int) : egcd 0 0 c = .error .divzero := by
+  rw [egcd_zero_left]; simp
+
+/-- Size of the returned pair: `|x| ≤ |c|/g · max(1, |b|/g)` and `|y| ≤ |c|/g · max(1, |a|/g)`, `g = gcd(a,b)`. -/
+theorem egcd_bound (a b c x y : Int) (h : egcd a b c = .ok (some (x, y))) :
+    x.natAbs ≤ (c.natAbs / Int.gcd a b) * max 1 (b.natAbs / Int.gcd a b) ∧
+    y.natAbs ≤ (c.natAbs / Int.gcd a b) * max 1 (a.natAbs / Int.gcd a b) := by
+  obtain ⟨K, hK⟩ := egcd_some_dvd a b c x y h
+  have hd : (Int.gcd a b : Int) ∣ c := by
+    rw [Int.natCast_dvd, hK]; exact Nat.dvd_mul_right _ _
+  exact egcd_bound' a b c x y h hd
+
+/-- No wrap inside the property's box: for `|a|, |b|, |c| ≤ 2^20` the `i64` instantiation (every quotient, product
+    and difference of the recursion checked against `i64`) never overflows and returns what `egcd` returns. -/
+theorem egcd_nowrap (a b c : Int) (ha : a.natAbs ≤ 2 ^ 20) (hb : b.natAbs ≤ 2 ^ 20) (hc : c.natAbs ≤ 2 ^ 20) :
+    egcdT IntTy.i64 a b c = egcd a b c := by
+  have hfits : ∀ z : Int, z.natAbs ≤ 2 ^ 40 → IntTy.i64.fits z = true := by
+    intro z hz
+    simp only [IntTy.fits, IntTy.minVal, IntTy.maxVal, IntTy.i64, if_true, Bool.and_eq_true, decide_eq_true_eq]
+    omega
+  by_cases hab : a = 0 ∧ b = 0
+  · obtain ⟨rfl, rfl⟩ := hab
+    rw [egcd_zero_left, egcdT_zero_left]; simp
+  apply egcdT_eq IntTy.i64 (2 ^ 20) (fun z hz => hfits z (by omega)) a b c ha hb
+  intro K hK z hz
+  apply hfits
+  have hG : 0 < Int.gcd a b := Nat.pos_of_ne_zero (by rw [Ne, Int.gcd_eq_zero_iff]; exact hab)
+  have h1 : K ≤ Int.gcd a b * K := Nat.le_mul_of_pos_left _ hG
+  have h2 : z.natAbs ≤ Int.gcd a b * z.natAbs := Nat.le_mul_of_pos_left _ hG
+  have h3 : K * 2 ^ 20 ≤ 2 ^ 20 * 2 ^ 20 := Nat.mul_le_mul_right _ (by omega)
+  omega
+
+/-- …and the returned coefficients are below `2^40` in magnitude there. -/
+theorem egcd_bound_box (a b c x y : Int) (ha : a.natAbs ≤ 2 ^ 20) (hb : b.natAbs ≤ 2 ^ 20) (hc : c.natAbs ≤ 2 ^ 20)
+    (h : egcd a b c = .ok (some (x, y))) : x.natAbs ≤ 2 ^ 40 ∧ y.natAbs ≤ 2 ^ 40 := by
+  obtain ⟨hx, hy⟩ := egcd_bound a b c x y h
+  have h1 : c.natAbs / Int.gcd a b ≤ 2 ^ 20 := Nat.le_trans (Nat.div_le_self _ _) hc
+  have h2 : max 1 (b.natAbs / Int.gcd a b) ≤ 2 ^ 20 :=
+    max_le (by decide) (Nat.le_trans (Nat.div_le_self _ _) hb)
+  have h3 : max 1 (a.natAbs / Int.gcd a b) ≤ 2 ^ 20 :=
+    max_le (by decide) (Nat.le_trans (Nat.div_le_self _ _) ha)
+  have e : (2 : Nat) ^ 40 = 2 ^ 20 * 2 ^ 20 := by decide
+  rw [e]
+  exact ⟨Nat.le_trans hx (Nat.mul_le_mul h1 h2), Nat.le_trans hy (Nat.mul_le_mul h1 h3)⟩
+
+example : egcd 4 6 2 = .ok (some (-1, 1)) := by
+  rw [egcd_step _ _ _ (by decide), show (6 : Int).tmod 4 = 2 by decide,
+    egcd_step _ _ _ (by decide), show (4 : Int).tmod 2 = 0 by decide, egcd_zero_left]
+  decide
+example : ∃ x y, egcd 4 6 2 = .ok (some (x, y)) ∧ 4 * x + 6 * y = 2 :=
+  ⟨-1, 1, by
+    rw [egcd_step _ _ _ (by decide), show (6 : Int).tmod 4 = 2 by decide,
+      egcd_step _ _ _ (by decide), show (4 : Int).tmod 2 = 0 by decide, egcd_zero_left]
+    decide, by decide⟩
+example : ∃ r, egcd (-6) 4 10 = .ok r ∧ r ≠ none := by
+  obtain ⟨r, h, hr⟩ := egcd_complete (-6) 4 10 (by decide)
+  exact ⟨r, h, by rw [Ne, hr]; decide⟩
+example : egcd (-6) 4 9 = .ok none := by
+  obtain ⟨r, h, hr⟩ := egcd_complete (-6) 4 9 (by decide)
+  rw [h, hr.mpr (by decide)]
+example : egcd 0 (-5) 10 = .ok (some (0, -2)) := by rw [egcd_zero_left]; decide
+example : egcdT IntTy.i64 (2 ^ 20) (-(2 ^ 20) + 1) (2 ^ 20) = egcd (2 ^ 20) (-(2 ^ 20) + 1) (2 ^ 20) :=
+  egcd_nowrap _ _ _ (by decide) (by decide) (by decide)
+
+/-- The two-congruence solver on its domain (`1 ≤ m1, m2`, reduced residues): it never errors, answers `none`
+    exactly when the congruences are incompatible (`gcd(m1,m2) ∤ a2 − a1`), and otherwise returns a solution of
+    both congruences inside `[0, lcm(m1,m2))`. -/
+theorem crt_spec (a1 m1 a2 m2 : Int) (hm1 : 1 ≤ m1) (hm2 : 1 ≤ m2)
+    (ha1 : 0 ≤ a1 ∧ a1 < m1) (ha2 : 0 ≤ a2 ∧ a2 < m2) :
+    (¬ (Int.gcd m1 m2 : Int) ∣ a2 - a1 ∧ crt a1 m1 a2 m2 = .ok none) ∨
+    ((Int.gcd m1 m2 : Int) ∣ a2 - a1 ∧ ∃ x, crt a1 m1 a2 m2 = .ok (some x) ∧ 0 ≤ x ∧ x < (Int.lcm m1 m2 : Int) ∧
+      m1 ∣ x - a1 ∧ m2 ∣ x - a2) := crt_main a1 m1 a2 m2 hm1 hm2 ha1 ha2
+
+/-- The returned solution is the only one in `[0, lcm(m1,m2))`. -/
+theorem crt_unique (a1 m1 a2 m2 x z : Int) (hm1 : 1 ≤ m1) (hm2 : 1 ≤ m2)
+    (ha1 : 0 ≤ a1 ∧ a1 < m1) (ha2 : 0 ≤ a2 ∧ a2 < m2)
+    (h : crt a1 m1 a2 m2 = .ok (some x))
+    (hz : 0 ≤ z ∧ z < (Int.lcm m1 m2 : Int)) (hz1 : m1 ∣ z - a1) (hz2 : m2 ∣ z - a2) : z = x := by
+  rcases crt_main a1 m1 a2 m2 hm1 hm2 ha1 ha2 with ⟨_, hn⟩ | ⟨_, x', hx', h0, hl, d1, d2⟩
+  · rw [hn] at h; simp at h
+  · rw [hx'] at h
+    simp only [Except.ok.injEq, Option.some.injEq] at h
+    subst h
+    exact crt_unique' a1 m1 a2 m2 x' z ⟨h0, hl⟩ hz d1 d2 hz1 hz2
+
+/-- No wrap inside the property's box: moduli up to `2^20`, reduced residues ⇒ the `i64` instantiation of `crt`
+    (checked `abs`, negation, difference, the whole `egcd` recursion, quotient, sums and the final product) never
+    overflows and returns what `crt` returns. -/
+theorem crt_nowrap (a1 m1 a2 m2 : Int) (hm1 : 1 ≤ m1 ∧ m1 ≤ 2 ^ 20) (hm2 : 1 ≤ m2 ∧ m2 ≤ 2 ^ 20)
+    (ha1 : 0 ≤ a1 ∧ a1 < m1) (ha2 : 0 ≤ a2 ∧ a2 < m2) :
+    crtT IntTy.i64 a1 m1 a2 m2 = crt a1 m1 a2 m2 := by
+  apply crtT_eq IntTy.i64 (2 ^ 20) _ a1 m1 a2 m2 (by simpa using hm1) (by simpa using hm2) ha1 ha2
+  intro z hz
+  simp only [IntTy.fits, IntTy.minVal, IntTy.maxVal, IntTy.i64, if_true, Bool.and_eq_true, decide_eq_true_eq]
+  omega
+
+example : ∃ x, crt 2 3 3 5 = .ok (some x) ∧ 0 ≤ x ∧ x < 15 ∧ (3 : Int) ∣ x - 2 ∧ (5 : Int) ∣ x - 3 := by
+  rcases crt_spec 2 3 3 5 (by decide) (by decide) (by decide) (by decide) with ⟨hn, _⟩ | ⟨_, x, h, h0, hl, d1, d2⟩
+  · exact absurd (by decide) hn
+  · exact ⟨x, h, h0, hl, d1, d2⟩
+example : crt 1 4 2 6 = .ok none := by
+  rcases crt_spec 1 4 2 6 (by decide) (by decide) (by decide) (by decide) with ⟨_, h⟩ | ⟨hd, _⟩
+  · exact h
+  · exact absurd hd (by decide)
+example : crt 2 3 3 5 = .ok (some 8) := by
+  rcases crt_spec 2 3 3 5 (by decide) (by decide) (by decide) (by decide) with ⟨hn, _⟩ | ⟨_, x, h, h0, hl, d1, d2⟩
+  · exact absurd (by decide) hn
+  · rw [h, crt_unique 2 3 3 5 x 8 (by decide) (by decide) (by decide) (by decide) h (by decide) (by decide) (by decide)]
+example : crtT IntTy.i64 (2 ^ 20 - 2) (2 ^ 20 - 1) 5 (2 ^ 20) = crt (2 ^ 20 - 2) (2 ^ 20 - 1) 5 (2 ^ 20) :=
+  crt_nowrap _ _ _ _ (by decide) (by decide) (by decide) (by decide)
 
 end Rlib.C11
